@@ -61,7 +61,7 @@ def gen(rng):
             kinds.append('nopayload-named-X.trashinfo')
     spare = [l[0] for l in locs if l[0] not in used_dirs and not any(l[0] == m_[0] for m_ in made)
              and not any(isinstance(s_[1], str) and (s_[1] == l[0] or s_[1].startswith(l[0] + '/')) for s_ in extra + steps)]
-    if spare and rng.random() < 0.06:
+    if spare and rng.random() < 0.08:
         # a whole trash directory is broken: its info (or files) is a regular file - the other trash directories are still read
         t_ = rng.choice(spare)
         extra.append(['d', t_, 0o700])
@@ -69,6 +69,13 @@ def gen(rng):
         extra.append(['f', t_ + '/' + which, 'not a directory', 0o600])
         extra.append(['d', t_ + '/' + ('files' if which == 'info' else 'info'), 0o700])
         kinds.append(which + '-is-a-regular-file')
+        if which == 'files' and rng.random() < 0.7:
+            # ... and its info/ still holds .trashinfo files: their payloads are not merely absent (ENOENT), looking for
+            # them fails with ENOTDIR
+            for j in range(rng.randint(1, 3)):
+                extra.append(['f', t_ + '/info/stranded%d.trashinfo' % j, '[Trash Info]\nPath=%s\nDeletionDate=%s\n' % (
+                    TG.pct(home + '/stranded%d' % j), TG.iso(TG.rand_date(rng))), 0o600])
+            kinds.append('infos-below-files-that-is-a-regular-file')
     if rng.random() < 0.006:
         # a payload WITHOUT info that is a directory nested deeper than the interpreter's recursion limit (an unpacked archive
         # bomb, a runaway script): whatever the purge does about it, the well-formed entries are purged all the same
@@ -89,6 +96,8 @@ def gen(rng):
     stdin = ''
     if reader == 'list':
         argv = ['trash-list'] + rng.choice([[], [], [], ['--size'], ['--files']])
+        if 'infos-below-files-that-is-a-regular-file' in kinds and rng.random() < 0.5:
+            argv = ['trash-list', '--size']
     elif reader == 'restore':
         argv = ['trash-restore', '/'] + rng.choice([[], [], ['--sort=date'], ['--sort=path'], ['--sort=none']])
         stdin = '?'
